@@ -193,6 +193,62 @@ fn run_unbounded(sv: &SV, stack: Stack, alg: Option<&NamedAlg>, which: &str) -> 
     }))
 }
 
+/// serialise into a byte writer that has room for `cap` bytes (kind 0: std::io, then fails; 1: std::io, then Ok(0); 2: embedded-io, then fails)
+fn run_writer(sv: &SV, stack: Stack, alg: Option<&NamedAlg>, cap: usize, kind: usize) -> J {
+    use crate::transport::{Eio, Io};
+    let mut w = Io::writer(vec![], Some(cap));
+    w.zero_on_full = kind == 1;
+    w.quiet = true;
+    let r = catch(|| -> postcard::Result<()> {
+        match (stack, kind) {
+            (Stack::Plain, 2) => postcard::serialize_with_flavor(sv, sf::eio::WriteFlavor::new(Eio(&mut w))).map(|_| ()),
+            (Stack::Plain, _) => postcard::serialize_with_flavor(sv, sf::io::WriteFlavor::new(&mut w)).map(|_| ()),
+            (_, 2) => with_digest!(alg.unwrap(), |d| postcard::serialize_with_flavor(sv, sf::crc::CrcModifier::new(sf::eio::WriteFlavor::new(Eio(&mut w)), d)).map(|_| ())),
+            (_, _) => with_digest!(alg.unwrap(), |d| postcard::serialize_with_flavor(sv, sf::crc::CrcModifier::new(sf::io::WriteFlavor::new(&mut w), d)).map(|_| ())),
+        }
+    });
+    match r {
+        Ok(Ok(())) => json!({"ok":1,"bytes":jb(&w.data)}),
+        Ok(Err(e)) => json!({"ok":0,"err":errname(&e),"written":jb(&w.data)}),
+        Err(p) => json!({"ok":0,"err":"panic","at":p}),
+    }
+}
+
+/// the inverse pipeline a receiver runs: COBS-decode the frame, then checksum-checked (or plain) decoding of the payload
+fn undo(s: &Shape, stack: Stack, alg: Option<&NamedAlg>, bytes: &[u8]) -> J {
+    let plain = |b: &[u8]| -> J {
+        match catch(|| with_shape(s, || postcard::take_from_bytes::<DynVal>(b).map(|(v, rest)| (v.0, rest.len())))) {
+            Ok(Ok((v, rest))) => json!({"ok":1,"value":v.to_json(),"rest":rest}),
+            Ok(Err(e)) => json!({"ok":0,"err":errname(&e)}),
+            Err(p) => json!({"ok":0,"err":"panic","at":p}),
+        }
+    };
+    let crc = |b: &[u8]| -> J {
+        let r = crate::framede::crc_call(alg.unwrap(), s, b, true);
+        if r[0] == 1 { json!({"ok":1,"value":r[1],"rest":r[2]}) } else { json!({"ok":0,"err":r[1]}) }
+    };
+    match stack {
+        Stack::Plain => plain(bytes),
+        Stack::Crc => crc(bytes),
+        Stack::Cobs => {
+            let mut b = bytes.to_vec();
+            match catch(move || with_shape(s, || postcard::from_bytes_cobs::<DynVal>(&mut b).map(|v| v.0))) {
+                Ok(Ok(v)) => json!({"ok":1,"value":v.to_json(),"rest":0}),
+                Ok(Err(e)) => json!({"ok":0,"err":errname(&e)}),
+                Err(p) => json!({"ok":0,"err":"panic","at":p}),
+            }
+        }
+        Stack::CrcCobs => {
+            let mut b = bytes.to_vec();
+            match catch(move || cobs::decode_in_place(&mut b).map(|n| { b.truncate(n); b })) {
+                Ok(Ok(payload)) => crc(&payload),
+                Ok(Err(_)) => json!({"ok":0,"err":"cobs"}),
+                Err(p) => json!({"ok":0,"err":"panic","at":p}),
+            }
+        }
+    }
+}
+
 fn stack_json(stack: Stack, alg: Option<&NamedAlg>) -> J {
     let crc = || json!({"l":"crc","alg":alg.unwrap().to_json(),"s":alg.unwrap().to_json()["s"]});
     match stack {
@@ -442,6 +498,19 @@ pub fn run(a: &Args) {
         let full_len = ub["bytes"].as_array().map(|b| b.len()).unwrap_or(0);
         let mut ev = json!({"op":"serb","shape":s.to_json(),"value":v.to_json(),"stack":stack_json(stack, alg)});
         let mut outs = vec![];
+        // C20: undoing the layers in reverse order recovers the value
+        if let Some(bytes) = ub["bytes"].as_array() {
+            let bytes: Vec<u8> = bytes.iter().map(|x| x.as_u64().unwrap() as u8).collect();
+            outs.push(json!({"storage":"undo","cap":-1,"res":undo(&s, stack, alg, &bytes)}));
+        }
+        // byte-writer storages (std::io / embedded-io) of every capacity under no modifier or the checksum modifier
+        // (COBS needs to patch earlier output and cannot sit on a writer)
+        if matches!(stack, Stack::Plain | Stack::Crc) && full_len <= 40 {
+            for cap in 0..=full_len + 1 {
+                let kind = (cap + i) % 3; // 0: std::io failing, 1: std::io reporting Ok(0), 2: embedded-io failing
+                outs.push(json!({"storage": if kind == 2 {"eio"} else {"io"},"cap":cap,"zero":(kind == 1) as u8,"res":run_writer(&sv, stack, alg, cap, kind)}));
+            }
+        }
         outs.push(json!({"storage":"allocvec","cap":-1,"res":ub}));
         outs.push(json!({"storage":"stdvec","cap":-1,"res":run_unbounded(&sv, stack, alg, "stdvec")}));
         if stack == Stack::Plain {
